@@ -710,6 +710,8 @@ class Interp:
             raise Unsupported(f"constructor of {f.name}")
         if callable(f) and not isinstance(f, SVal):
             return f(cx, *args, **kwargs)
+        if isinstance(f, SVal) and hasattr(f, "py_call"):
+            return f.py_call(cx, *args, **kwargs)
         raise Unsupported(f"call of {f!r}")
 
     def call_repo(self, cx, f: RepoFunc, args, kwargs):
@@ -1512,7 +1514,7 @@ class Interp:
     def ex_GeneratorExp(self, cx, fr, e):
         if len(e.generators) == 1 and not e.generators[0].ifs:
             src = self.eval(cx, fr, e.generators[0].iter)
-            if isinstance(src, (SSet, SSeq, SMap)) and self.iter_concrete(cx, src) is None:
+            if hasattr(src, "py_quantify") or (isinstance(src, (SSet, SSeq, SMap)) and self.iter_concrete(cx, src) is None):
                 return LazyGen(fr, e, src)  # consumed by all()/any() as a quantified predicate
         r = self.comprehension(cx, fr, e, "list")
         return ConcreteIter(r) if isinstance(r, list) else r
@@ -1520,6 +1522,8 @@ class Interp:
     def quantify_gen(self, cx, g, universal: bool):
         """all(P(x) for x in S) / any(...) over a symbolic collection: P evaluated once on a generic element."""
         e, src, fr = g.node, g.src, g.fr
+        if hasattr(src, "py_quantify"):  # spec-level collection with its own reading of all()/any() over it
+            return src.py_quantify(self, cx, g, universal)
         sub = Frame(fr.modinfo, fr.qual, Env(fr.env), spec=fr.spec, cls=fr.cls)
         if isinstance(src, SSeq):
             i = z3.Int(fresh_name("qi"))
@@ -1534,6 +1538,23 @@ class Interp:
         for ax in axioms:
             cx.assume(z3.ForAll(bound, z3.Implies(rng, ax)))
         p = as_bool(cx, truth(cx, vals[0]))
+        return SBool(z3.ForAll(bound, z3.Implies(rng, p)) if universal else z3.Exists(bound, z3.And(rng, p)))
+
+    def quantify_map(self, cx, g, universal: bool):
+        """all(map(f, S)) / any(map(f, S)) over a symbolic collection: f evaluated once on a generic element."""
+        src = g.src
+        if isinstance(src, SSeq):
+            i = z3.Int(fresh_name("qi"))
+            elem, rng, bound = src.at(i), z3.And(0 <= i, i < src.n), [i]
+        else:
+            k = z3.Const(fresh_name("qk"), src.kt.sort())
+            elem, rng, bound = src.kt.wrap(k), src.has(k), [k]
+        v, fails, axioms = self.eval_on_element(cx, g.f, elem, bound[0])
+        for exc, fc in fails:
+            cx.oblige(f"quantified-predicate-total:{exc}", "no-exception", z3.ForAll(bound, z3.Implies(rng, z3.Not(fc))), clause="the predicate is defined for every element")
+        for ax in axioms:
+            cx.assume(z3.ForAll(bound, z3.Implies(rng, ax)))
+        p = as_bool(cx, truth(cx, v))
         return SBool(z3.ForAll(bound, z3.Implies(rng, p)) if universal else z3.Exists(bound, z3.And(rng, p)))
 
     def ex_DictComp(self, cx, fr, e):
@@ -1842,6 +1863,16 @@ class LazyGen(SVal):
         return True
 
 
+class MapGen(SVal):
+    """map(f, S) over a symbolic collection (only all()/any() can consume it)"""
+
+    def __init__(self, f, src):
+        self.f, self.src = f, src
+
+    def py_truth(self, cx):
+        return True
+
+
 class ConcreteBound(SVal):
     def __init__(self, obj, name):
         self.obj, self.name = obj, name
@@ -1904,6 +1935,8 @@ def concrete_method(interp, cx, fr, recv, name, args, kwargs):
         if name == "union":
             return recv | set(args[0])
     if isinstance(recv, str):
+        if name == "join" and len(args) == 1 and hasattr(args[0], "py_joined_by"):
+            return args[0].py_joined_by(cx, recv)  # spec-level sequence of strings that knows its own join
         if any(is_sym(a) for a in args):
             return lift(recv).py_call_method(cx, name, args, kwargs)
         if name in ("startswith", "endswith", "find", "split", "strip", "lstrip", "rstrip", "join", "encode", "lower", "upper", "replace", "capitalize", "format"):
@@ -2121,6 +2154,8 @@ def make_builtins(interp):
     def _any(cx, fr, it):
         if isinstance(it, LazyGen):
             return interp.quantify_gen(cx, it, universal=False)
+        if isinstance(it, MapGen):
+            return interp.quantify_map(cx, it, universal=False)
         items = interp.iter_concrete(cx, it)
         if items is None:
             raise Unsupported("any() of symbolic")
@@ -2133,6 +2168,8 @@ def make_builtins(interp):
     def _all(cx, fr, it):
         if isinstance(it, LazyGen):
             return interp.quantify_gen(cx, it, universal=True)
+        if isinstance(it, MapGen):
+            return interp.quantify_map(cx, it, universal=True)
         items = interp.iter_concrete(cx, it)
         if items is None:
             raise Unsupported("all() of symbolic")
@@ -2145,6 +2182,8 @@ def make_builtins(interp):
     def _map(cx, fr, f, it):
         items = interp.iter_concrete(cx, it)
         if items is None:
+            if isinstance(it, (SSeq, SSet)):
+                return MapGen(f, it)  # only all()/any() can consume it
             raise Unsupported("map() over symbolic")
         return ConcreteIter([interp.call_value(cx, fr, f, [x], {}) for x in items])
 
